@@ -9,6 +9,7 @@ Open Scope Z_scope.
 Record planted_case := mkPL {
   pl_subst : bool;        (* the manual lists the field among the substituted places *)
   pl_defined : bool;      (* p is defined (by -D, by a default, or both) *)
+  pl_need_accept : bool;  (* the value of p was chosen to keep the configuration valid *)
   pl_kind : N;            (* 0 accepted, 1 rejected, 2 panicked, 3 timed out *)
   pl_cls : N;             (* message class when rejected (a note; not used by the oracle) *)
   pl_names_p : bool;      (* the diagnostic mentions ~p~ *)
@@ -20,13 +21,15 @@ Record planted_case := mkPL {
 (** Reference of a substituted field: the same text with the winning value of
     p written out.  Reference of an untouched field: the same text with p not
     defined at all.  The plain meaning:
-    - substituted, defined: accepted, and identical to the reference;
+    - substituted, defined: identical to the reference (the value written
+      out), and accepted when the value was chosen valid; keyword values
+      (`unconstrained`, `always`, ...) need only read like the written-out text;
     - substituted, undefined: rejected at that line, naming ~p~;
     - untouched: identical to the reference whatever p is. *)
 Definition planted_oracle_bad (c : planted_case) : bool :=
   if (2 <=? pl_kind c)%N then true
   else if pl_subst c then
-    if pl_defined c then negb (pl_same c && (pl_kind c =? 0)%N)
+    if pl_defined c then negb (pl_same c && ((pl_kind c =? 0)%N || negb (pl_need_accept c)))
     else negb ((pl_kind c =? 1)%N && pl_names_p c && pl_pos_ok c)    (* whatever the wording: rejected there, naming ~p~ *)
   else negb (pl_same c).
 
@@ -148,7 +151,9 @@ Definition pp_oracle_bad (c : pp_case) : bool :=
 
 (** * Include graphs: (parse case, the generator's reference reading order of
       the titles when it predicts acceptance, the observed titles) *)
-Definition graph_case := (parse_case * option (list bs) * list bs)%type.
+Definition graph_case := (parse_case * option (list bs) * list bs * bool)%type.
+(* the boolean: the same text with every included file written in place of
+   its clause gave the same printed configuration / the same message *)
 
 Definition model_titles (c : parse_case) (pv : pvars) : option (list bs) :=
   match open_main (pc_fs c) (pc_ip c) (pc_main c) with
@@ -165,7 +170,7 @@ Definition model_titles (c : parse_case) (pv : pvars) : option (list bs) :=
   end.
 
 Definition graph_model_bad (g : graph_case) : bool :=
-  let '(c, _, titles) := g in
+  let '(c, _, titles, _) := g in
   parse_model_bad c
   || match pc_obs c with
      | PAccepted pv =>
@@ -177,8 +182,9 @@ Definition graph_model_bad (g : graph_case) : bool :=
      end.
 
 Definition graph_oracle_bad (g : graph_case) : bool :=
-  let '(c, expected, titles) := g in
+  let '(c, expected, titles, splice_same) := g in
   parse_oracle_bad c
+  || negb splice_same               (* include is not "as if its text stood in place of the clause" *)
   || match expected, pc_obs c with
      | Some ts, PAccepted _ => negb (names_eqb ts titles)
      | Some _, _ => true              (* the reference reads it through; the implementation refused *)
